@@ -140,8 +140,14 @@ class FileParser:
         Build a directive node by parsing a directive line, and insert a
         new directive node into the tree.
         """
+        # The directive stands on the first line of the group that holds
+        # anything; a comment that ends in front of it may have started on
+        # an earlier line.
+        first_line = line_group.start_line
+        if line_group.lines:
+            first_line = min(line_group.lines)
         new_node = preprocessor.DirectiveParser(
-            preprocessor.Lexer(logical_line, line_group.start_line).tokenize(),
+            preprocessor.Lexer(logical_line, first_line).tokenize(),
         ).parse()
         new_node.start_line = line_group.start_line
         new_node.end_line = line_group.end_line
